@@ -1,4 +1,4 @@
-import Netpoll.Buf.OwnerLemmas18
+import Netpoll.Buf.OwnerLemmas25
 /-!
 C02 – zero-copy read results stay intact until their reader is released.
 
@@ -9,6 +9,39 @@ the owner away.
 -/
 namespace Netpoll.Props.C02
 open Netpoll.Buf Netpoll.Buf.Own
+
+/-- **Until `Release` is called on the reader they came from, the memory behind zero-copy results is not handed back to the
+pool**: in every state of a covered history, the block under every live view – a result of Next / Peek / Until / GetBytes whose
+owner has not been released, closed, sliced or appended away since, or a private copy of ReadBinary / ReadString / Read – has not
+been freed, whatever later reads, writes, growth, appends or releases of other readers happened.
+`_partial`: the history must satisfy `CovV` at every call:
+(1) no `WriteDirect` with `remain > 0` (the split of one block between two structs: known finding D4, witnesses below);
+(2) `MallocAck` only when the structs behind the flush node have reference count 1 (it would reset the count; inside the contract
+    these structs hold pending data only);
+(3) `Flush` / in-place `WriteBinary` / `book` / `resetTail` / `Append` (receiver) only when no *exposed* struct sits behind the write node
+    (these calls cut the chain there; inside the contract such structs were never read);
+(4) fresh ids for `new` and Slice readers, `Append` of another buffer. -/
+theorem C02_no_free_while_live_partial (cfg : Cfg) (ops : List Op) (hc : AllSteps cfg CovV {} ops)
+    (v : View) (hv : v ∈ (run cfg {} ops).mem.views) (hl : v.live = true) (bl : Block)
+    (hbl : (run cfg {} ops).mem.blocks[v.block]? = some bl) : bl.frees = 0 :=
+  view_block_unfreed (run_all ops hc).1 (run_all ops hc).2 hv hl hbl
+
+/-- the same as a statement about the executable oracle printed by `npdriver own` (`free-while-view-live`,
+`freed-block-in-chain`): it accepts every state of a covered history – the exact counterpart of `C02_D4_witness` -/
+theorem C02_oracle_accepts_partial (cfg : Cfg) (ops : List Op) (hc : AllSteps cfg CovV {} ops) :
+    (run cfg {} ops).noDangling = true :=
+  noDangling_of_good (run_all ops hc).1 (run_all ops hc).2
+
+/-- `CovV` holds along a history with zero-copy results of every kind held across later reads, writes, growth, a Slice, an Append
+and releases of other readers – and there are live views at its end -/
+def viewOps : List Op :=
+  [.new 0 16, .mal 0 16, .mal 0 16, .mal 0 16, .flush 0, .next 0 5, .peek 0 20, .skip 0 3, .peek 0 20, .getbytes 0 2,
+   .mal 0 2000, .flush 0, .next 0 1500, .slice 0 40 1, .next 1 10, .new 2 8, .mal 2 20, .flush 2, .next 2 4, .app 0 2, .flush 0,
+   .untl 1 3, .rel 0, .next 0 8, .rbin 0 4, .read 0 6]
+
+example : AllSteps { linkBufferCap := 16 } CovV {} viewOps := allStepsB_sound (fun _ _ => covVB_sound) _ _ (by decide)
+example : (((run { linkBufferCap := 16 } {} viewOps).mem.views.filter (·.live)).length) = 5 := by decide
+example : ((run { linkBufferCap := 16 } {} viewOps).mem.blocks.filter (fun b => b.frees > 0)).length = 7 := by decide
 
 /-- **What a Slice reader (or any other open reader) still holds is never handed back to the pool**: in every state of a
 covered history the block under each struct chained in a buffer – the child nodes a Slice reader holds on its parent's
